@@ -491,6 +491,86 @@ def entry_points(chk, rng, dist):
     dist['entry_point_runs'] = runs[0]
 
 
+def unnamed_background_run(chooser, names):
+    """Background jobs started WITHOUT a name (`spawn_job(job, None)` / `''` — what
+    `WebApp.queue_file(…, run_background=True)` does): the controller gives each a name of its
+    own, reports it as running under that name exactly while it executes, forgets it when it ends,
+    and reports no jobs when everything has finished."""
+    from bardolph.lib import job_control as jc
+    problems = []
+    s = sched.Scheduler(trace_files=[jc.__file__], chooser=chooser, max_steps=6000, watchdog_s=20.0)
+    agents = {}
+    state = {}
+
+    class BgJob(jc.Job):
+        def __init__(self, key):
+            self.key = key
+
+        def execute(self):
+            state[self.key] = 'running'
+            s.yield_point(('body',))
+            ag = agents.get(self.key)
+            if ag is not None and not j.is_running(ag.name):
+                problems.append(('background-tracking', 'background job started with name {!r} is not reported '
+                                 'as running under its name {!r} while it executes'.format(names[self.key], ag.name)))
+            s.yield_point(('body',))
+            state[self.key] = 'ended'
+
+    with s.patched(jc):
+        j = jc.JobControl()
+
+        def client(k):
+            def go():
+                agents[k] = j.spawn_job(BgJob(k), names[k])
+            return go
+        for k in range(len(names)):
+            s.add_thread('c{}'.format(k), client(k))
+        res = s.run()
+        for tid, ex in res.exceptions.items():
+            problems.append(('controller-call-raises', '{} escaped from thread {}: {}'.format(
+                type(ex).__name__, tid, ex)))
+        if res.deadlock:
+            problems.append(('deadlock', 'no thread can run: {}'.format(res.blocked)))
+        elif res.aborted:
+            raise InfraError('unnamed-background run cut off after {} steps'.format(len(res.steps)))
+        elif not res.exceptions:
+            seen = [a.name for a in agents.values() if a is not None]
+            if len(set(seen)) != len(names):
+                problems.append(('background-tracking', 'the jobs got the names {}: not distinct'.format(seen)))
+            for k, a in agents.items():
+                if a is not None and j.is_running(a.name):
+                    problems.append(('background-tracking', 'background job {!r} still reported running after '
+                                     'it ended'.format(a.name)))
+            if j.has_jobs():
+                problems.append(('has-jobs-after-drain', 'everything has finished but has_jobs() is True'))
+    return res, problems
+
+
+def unnamed_background(chk, rng, dist):
+    found = []
+    runs = [0]
+
+    def one(chooser, names):
+        res, problems = unnamed_background_run(chooser, names)
+        runs[0] += 1
+        chk.count()
+        if problems and not found:
+            sig, text = problems[0]
+            found.append(sig)
+            chk.violation(sig, text + ' [spawn_job with names {}]'.format(names),
+                          {'spawn_names': names, 'schedule': res.schedule})
+        elif not problems:
+            chk.nontrivial_case(('bg', tuple(map(str, names)), tuple(res.schedule)))
+        return res
+    for names in ([None], [''], [None, None], ['', None], ['x', None], [None, '', 'x']):
+        sched.explore_bounded(lambda ch, names=names: one(ch, names), 1, max_runs=300 if chk.thorough else 60,
+                              on_result=lambda r: bool(found))
+        for _ in range(40 if chk.thorough else 8):
+            if not found:
+                one(sched.RandomChooser(rng, stay=rng.choice([0.0, 0.6])), names)
+    dist['unnamed_background_runs'] = runs[0]
+
+
 def run_case(jc_mod, scn, chooser, observe=True):
     run = Run(jc_mod, scn, chooser, observe)
     try:
@@ -611,6 +691,7 @@ def main():
 
     # ---- 2b. the entry point that owns a controller of its own
     entry_points(chk, rng, dist)
+    unnamed_background(chk, rng, dist)
 
     # ---- 3. correspondence with the Lean transition system, step by step
     answers = chk.driver.ask_many([('jc.replay', a) for a, _, _ in requests]) if requests else []
